@@ -202,3 +202,25 @@ Theorem C08_cloudrain_read_write : forall c, c_wf c = true -> c_steps c <> [] ->
             c_dec (c_nvars c) (c_write (c_desc c) v) = Some c.
 Proof. exact cr_read_write. Qed.
 Print Assumptions C08_cloudrain_read_write.
+
+(* ======================================================================================================
+   CAMx land-use files (Model/Landuse.v): read, write
+   ====================================================================================================== *)
+From PNC Require Import Model.Landuse Proofs.LanduseProofs.
+
+(* reading a file and writing what was presented (ncf2landuse, hand-modelled as lu_write) reproduces EVERY well-formed file
+   word for word, and the written file decodes to the content. (Before 58a734f the optional records of a new-style file were
+   written first: former finding landuse-writer-record-order, now corpus/C08/landuse-writer-record-order.json.) *)
+Theorem C08_landuse_read_write : forall c, lu_wf c = true -> lu_sniff_ok c = true ->
+  exists v, lu_mm_read true (lu_rows c) (lu_cols c) (lu_enc c) (4 * Z.of_nat (length (lu_enc c))) = Ok v /\
+            lu_write v = lu_enc c /\ lu_dec (lu_rows c) (lu_cols c) (lu_write v) = Some c.
+Proof. exact lu_read_write. Qed.
+Print Assumptions C08_landuse_read_write.
+
+Definition C08_landuse_new : landuse :=
+  {| lu_new := true; lu_nland := 11; lu_rows := 1; lu_cols := 2; lu_fland := map Z.of_nat (seq 100 22);
+     lu_opts := [(lu_key_LAI, [1; 2]); (lu_key_TOPO, [3; 4])] |}.
+Example C08_landuse_hyp_inhabited :
+  lu_wf C08_landuse_new = true /\ lu_sniff_ok C08_landuse_new = true /\
+  lu_write (lu_view_of C08_landuse_new) = lu_enc C08_landuse_new /\ length (lu_enc C08_landuse_new) = 44%nat.
+Proof. vm_compute. repeat split. Qed.
